@@ -266,13 +266,14 @@ def main(tier: str, replay: str | None = None):
 
     if tier == "quick":
         plan = {"all": ("DiffTree_check.cfg", 1, "all", 6), "small": ("DiffTree_check.cfg", 2, "small", 6)}
-        procs, n_cli = 6, 10
+        procs, n_cli = 8, 10
     else:
         plan = {"all": ("DiffTree_check.cfg", 2, "all", 10), "small": ("DiffTree_check.cfg", 3, "small", 6)}
         procs, n_cli = 10, 40
     stores = {k: Store() for k in plan}
     jobs = {k: (lambda a=a, k=k: run_tlc(a[0], a[1], a[2], catch, workers=a[3], store=stores[k])) for k, a in plan.items()}
-    jobs["defect_abort"] = lambda: run_tlc("DiffTree_defect_abort.cfg", 1, "small", catch, emit=False, workers=1, dump_trace=True)
+    if not catch:   # with CatchCyclic extracted as TRUE, I_NoAbort_Clean of the check cfg already is I_NoAbort everywhere
+        jobs["defect_abort"] = lambda: run_tlc("DiffTree_defect_abort.cfg", 1, "all", catch, emit=False, workers=1, dump_trace=True)
     jobs["defect_path"] = lambda: run_tlc("DiffTree_defect_path.cfg", 1, "small", catch, emit=False, workers=1, dump_trace=True)
     with ThreadPoolExecutor(max_workers=4) as ex:
         futs = {k: ex.submit(f) for k, f in jobs.items()}
@@ -289,9 +290,11 @@ def main(tier: str, replay: str | None = None):
         if len(stores[k]) != res[k].distinct:
             die(f"C11: TLC found {res[k].distinct} distinct states ({k}) but {len(stores[k])} distinct (base, script) cases were emitted")
     for k in ("defect_abort", "defect_path"):
-        tlc.must(res[k], allow_violations=True)
-        run.add_tlc(res[k])
-    confirm_defect(run, griffe, res["defect_abort"], "I_NoAbort", "abort")
+        if k in res:
+            tlc.must(res[k], allow_violations=True)
+            run.add_tlc(res[k])
+    if "defect_abort" in res:
+        confirm_defect(run, griffe, res["defect_abort"], "I_NoAbort", "abort")
     confirm_defect(run, griffe, res["defect_path"], "I_ReportedAtPublicPath", "public path")
 
     run.extra["timing"]["defects_confirmed_at_s"] = round(time.time() - run.t0, 1)
